@@ -599,6 +599,13 @@ MUTANTS = [
          old='''                    // The server waits for the client now, whatever came before in this reply.
                     self.data_available = false;
 ''', new=''''''),
+    dict(id="c18-copy-start-counted", prop="C18", file="src/client.rs", expect="C18-R5",
+         what="D32 again: a round trip that only started a COPY counts a transaction",
+         old='''                        // A COPY that has only started is counted, and the server released, when it ends.
+                        if !server.in_transaction() && !server.in_copy_mode() {
+                            // Report transaction executed statistics.''',
+         new='''                        if !server.in_transaction() {
+                            // Report transaction executed statistics.'''),
     # ------------------------------------------------------------------ C12
     dict(id="c12-raw-value", prop="C12", file="src/server.rs", expect="C12-R2",
          what="value interpolated without escaping again",
